@@ -48,7 +48,7 @@ def gen_cases(rng, tier, escalate=False):
     mul = 3 if escalate else 1
     cases = []
     hand = sched04.HAND_SMALL
-    budget = 2500 if quick else 20000
+    budget = 4000 if quick else 30000
     for s in hand:
         cases.append(sched04.exhaustive_case(s, ORACLES, codes, budget))
     for k in range((40 if quick else 400) * mul):
